@@ -20,8 +20,8 @@ for pid, s in sorted(PROPS.items()):
                 continue
             seen.add(key)
             t0 = time.time()
-            if L["variant"] == "miri":
-                cmd, env = check.miri_cmd(L["crate"], 1)
+            if L["variant"].startswith("miri"):
+                cmd, env = check.miri_cmd(L["crate"], 1, hooks=L["variant"] == "miri-hooks")
                 r = subprocess.run(cmd + ["__warm__"], cwd=check.HARNESS, env=env, stdout=subprocess.PIPE, stderr=subprocess.STDOUT, text=True)
                 print("setup: miri %s rc=%s %.1fs" % (L["crate"], r.returncode, time.time() - t0), flush=True)
             else:
